@@ -304,6 +304,12 @@ pub fn judge(h: &History, recs: &[StepRec]) -> Result<u32, Failure> {
             if singles.len() >= 2 && ats.get(1) != Some(&(want1 + 1000)) {
                 return Err(fail("timing/async-rx2".into(), format!("Timer::at({:?}) before RX2, expected {}", ats.get(1), want1 + 1000)));
             }
+            // Class C listening between the windows uses the RX2 parameters: when the device starts to listen
+            // between its transmission and RX1, or between the windows, the radio's last configuration must be
+            // a continuous receive set-up (the transmission / the single-shot window came after any earlier one)
+            if after.iter().any(|e| matches!(e, Ev::ListenUnarmed)) {
+                return Err(fail("classc-listen-without-setup".into(), "Class C listening inside the transaction started without a continuous receive set-up since the radio was last reconfigured (transmission, single-shot window or low power): the RX2 parameters are not what the radio listens with".into()));
+            }
             // Class C: continuous reception uses the RX2 parameters (in force before or after this transaction)
             for e in after {
                 if let Ev::SetupRx { rf, single_ms: None } = e {
